@@ -1095,6 +1095,16 @@ class Product(Expression):
             yield from expression._iter_variables()
 
 
+def _bases_are_distinct(children: Iterable[Variable]) -> bool:
+    """Check that no variable appears twice among the children, e.g., under two different interventions.
+
+    A joint like ``P(C @ A, C @ B)`` mentions ``C`` twice; summing over ``C`` is then not a marginalization,
+    and a lookup of the children by their base variable would lose one of them.
+    """
+    bases = [child.get_base() for child in children]
+    return len(bases) == len(set(bases))
+
+
 def _ranges_subscript_children(ranges: Iterable[Variable], children: Iterable[Variable]) -> bool:
     """Check if a summed variable also appears as an intervention of one of the children.
 
@@ -1196,6 +1206,7 @@ class Sum(Expression):
             isinstance(expression, Probability)
             and not expression.parents  # i.e., no conditions
             and not _ranges_subscript_children(ranges, expression.children)
+            and _bases_are_distinct(expression.children)
         ):
             children = {
                 child.get_base(): child
